@@ -12,7 +12,7 @@ use std::io::Write;
 pub const META: Meta = Meta {
     id: "C11",
     level: "exploration",
-    rule: "Histories from the C08/C09 generators (identity and gzip) with one Abort or one DropBody inserted at every position - before any data, mid-chunk, right after a flush, after partial consumption - followed by at least three more producer operations: exhaustive for base histories of <= 3 operations (chunk sizes 2,3; gzip chunk 1,5), proptest for long ones; plus the memory-release sub-check (8 MiB queued, body dropped, failing call made, live heap measured with a counting allocator), the gzip 'c + 128 KiB cannot be written' sub-check, and producer/consumer schedules with an abort from the C10 scheduler. Oracle: model of accepted bytes; after abort the next terminal event is the aborting error, delivered bytes are a prefix, end-of-stream is never claimed while the error is pending (neither by is_end_stream() nor by an exact size hint of zero, which hyper treats as an empty body and never polls), later writes/flushes fail; after the body is dropped flush with unflushed bytes and chunk-completing writes fail, failures are sticky, the queue is released. Non-trivial = abort/drop at a position with buffered or queued bytes, or concurrent; distinct by fingerprint of history.",
+    rule: "Histories from the C08/C09 generators (identity and gzip) with one Abort or one DropBody (normal, and while the consumer's thread unwinds from a panic) inserted at every position - before any data, mid-chunk, right after a flush, after partial consumption - followed by at least three more producer operations: exhaustive for base histories of <= 3 operations (chunk sizes 2,3; gzip chunk 1,5), proptest for long ones; plus the memory-release sub-check (8 MiB queued, body dropped, failing call made, live heap measured with a counting allocator), the gzip 'c + 128 KiB cannot be written' sub-check, and producer/consumer schedules with an abort from the C10 scheduler. Oracle: model of accepted bytes; after abort the next terminal event is the aborting error, delivered bytes are a prefix, end-of-stream is never claimed while the error is pending (neither by is_end_stream() nor by an exact size hint of zero, which hyper treats as an empty body and never polls), later writes/flushes fail; after the body is dropped flush with unflushed bytes and chunk-completing writes fail, failures are sticky, the queue is released. Non-trivial = abort/drop at a position with buffered or queued bytes, or concurrent; distinct by fingerprint of history.",
     assumptions: &[
         "a flush with nothing to flush may still succeed after the body is gone (the statement is about calls that have bytes to deliver)",
         "live-heap measurement is made single-threaded before the parallel phases start",
@@ -160,14 +160,20 @@ pub fn run(cx: &Cx) -> Acc {
                     v.push(Op::Sample);
                     v.extend_from_slice(&ops[at..]);
                     v.extend(producer_suffix(c));
-                    let case = SCase {
-                        gzip,
-                        chunk: c,
-                        payload: Payload::Hash,
-                        ops: v,
-                        extra_polls: 2,
-                    };
-                    acc.run_case(cx, "every-position", &case, |acc| check(&case, acc));
+                    // the body (or the writer, at the end) dropped normally and during a panic unwind
+                    for unwinding in [false, true] {
+                        let case = SCase {
+                            gzip,
+                            chunk: c,
+                            payload: Payload::Hash,
+                            ops: v.clone(),
+                            extra_polls: 2,
+                            unwind_body_drop: unwinding,
+                            unwind_writer_drop: unwinding,
+                            ..Default::default()
+                        };
+                        acc.run_case(cx, "every-position", &case, |acc| check(&case, acc));
+                    }
                 }
             }
         });
